@@ -5,6 +5,7 @@ import (
 	"math"
 	"sort"
 	"strings"
+	"unicode/utf8"
 
 	jd "github.com/josephburnett/jd/v2"
 )
@@ -426,6 +427,89 @@ func perturb(r *Rng, cfg GenCfg, a, b *Val) *Val {
 	}
 }
 
+// aliasPartner: a value of ANOTHER JSON type with the same hash code (the hash pre-images are not domain-separated:
+// a string of 8 bytes and the number with that bit pattern, the empty string and the empty array), or nil
+func aliasPartner(v *Val) *Val {
+	switch v.K {
+	case KStr:
+		if v.S == "" {
+			return VArr()
+		}
+		if len(v.S) == 8 {
+			var u uint64
+			for k := 7; k >= 0; k-- {
+				u = u<<8 | uint64(v.S[k])
+			}
+			x := math.Float64frombits(u)
+			if !math.IsNaN(x) && !math.IsInf(x, 0) {
+				return VNum(x)
+			}
+		}
+	case KNum:
+		u := math.Float64bits(v.N)
+		bs := make([]byte, 8)
+		for k := 0; k < 8; k++ {
+			bs[k] = byte(u >> (8 * k))
+		}
+		if utf8.Valid(bs) {
+			ok := true
+			for _, c := range bs {
+				if c < 0x20 || c == 0x7f {
+					ok = false
+				}
+			}
+			if ok {
+				return VStr(string(bs))
+			}
+		}
+	case KArr:
+		if len(v.A) == 0 && (v.Tag == "" || v.Tag == "r") {
+			return VStr("")
+		}
+	}
+	return nil
+}
+
+// aliasSwapDeep replaces some values inside v by their alias partners; returns how many
+func aliasSwapDeep(r *Rng, v *Val) int {
+	n := 0
+	switch v.K {
+	case KArr:
+		for i, e := range v.A {
+			if p := aliasPartner(e); p != nil && r.Chance(2, 3) {
+				v.A[i] = p
+				n++
+			} else {
+				n += aliasSwapDeep(r, e)
+			}
+		}
+	case KObj:
+		ks := make([]string, 0, len(v.O))
+		for k := range v.O {
+			ks = append(ks, k)
+		}
+		sort.Strings(ks)
+		for _, k := range ks {
+			if p := aliasPartner(v.O[k]); p != nil && r.Chance(1, 2) {
+				v.O[k] = p
+				n++
+			} else {
+				n += aliasSwapDeep(r, v.O[k])
+			}
+		}
+	}
+	return n
+}
+
+// aliasCfg: pools rich in values that have an alias partner
+func aliasCfg() GenCfg {
+	c := DefaultCfg()
+	c.Strs = []string{"AAAAAAAA", "password", "username", "", "a", "12345678"}
+	c.Nums = []float64{2261634.5098039214, 7.295422314059467e+175, 3.8098506874642707e+180, 1, 2}
+	c.ScalarBias = 4
+	return c
+}
+
 func splitHunks(dw string) []string {
 	// dw = "< ( … ) ( … ) >"; hunks never nest parentheses
 	dw = strings.TrimSpace(dw)
@@ -468,6 +552,10 @@ func propC03(run *Run, n int) {
 		if r.Chance(1, 4) {
 			cfg = DeepCfg()
 		}
+		aliasRun := r.Chance(1, 6)
+		if aliasRun {
+			cfg = aliasCfg()
+		}
 		a, b := cfg.Pair(r)
 		dw := implDiff(OptNone, a.Wire(), b.Wire())
 		hs := splitHunks(dw)
@@ -481,6 +569,13 @@ func propC03(run *Run, n int) {
 			t := perturb(r, cfg, a, b)
 			if k == 0 && r.Chance(1, 2) {
 				t = a.Clone()
+			}
+			if aliasRun && k > 0 {
+				// the target differs from a only by values of another type with the SAME HASH CODE as the one expected
+				t = a.Clone()
+				if aliasSwapDeep(r, t) > 0 {
+					run.Count("target:hash-alias-of-expected-value")
+				}
 			}
 			addC03Case(run, t, joinHunks(sub))
 		}
@@ -1146,6 +1241,13 @@ func propC07(run *Run, n int) {
 			permuteDeep(r, b, false)
 		}
 		addC07Case(run, ch.o, ch.label, a, b)
+		if r.Chance(1, 20) {
+			// with a Precision the hunks must still be located where the values are (Diff ignores the precision:
+			// a nudged number is a reported difference; KF-C05-precision belongs to C05, not to this property)
+			pa, pb := precRunPair(r, 0.1)
+			run.Count("precision:nudged-pair-next-to-a-changed-pair")
+			addC07Case(run, OptPrec(0.1), "Precision(0.1)-runs", pa, pb)
+		}
 	}
 }
 
